@@ -27,14 +27,18 @@ def _select(prop):
     return None
 
 
+STRESS = {"C01": 0.2, "C02": 0.2, "C03": 0.3, "C05": 0.5, "C10": 0.1, "C17": 0.3}
 MODE_FRACTION = {"C01": 0.10, "C02": 0.10, "C03": 0.15, "C05": 0.15, "C10": 0.15, "C17": 0.05}
 
 
 def check(prop, tier, seed):
     rep = Report(prop, tier, seed)
-    n = common.tier_n(tier)
+    n = common.tier_n(tier, 4000 if prop == "C05" else None)
     items = common.choose_items(prop, tier, seed, n, select=_select(prop), mode_fraction=MODE_FRACTION[prop],
-                                prior_fraction=0.08, mode_cap=(150 if tier == "quick" else 500) if prop == "C05" else 2000)
+                                stress_strict=(prop == "C05"),
+                                prior_fraction=0.08, stress_fraction=STRESS[prop], mode_cap=(150 if tier == "quick" else 500) if prop == "C05" else 2000)
+    # pinned pathological battery (constant objective, exact zeros, ties, optima on zero bounds) for every optimizer
+    items += [{"b": k} for k in range(len(universe.battery()))]
     if prop == "C10":
         # extended population sizes (odd, not multiples of group counts); audited separately (audit/ext_v2.json)
         import random as _r
@@ -63,6 +67,8 @@ def check(prop, tier, seed):
     rep.extra["elitist_generation_pairs"] = counters["sum_c17_pairs"]
     for item, obs in pairs[:400]:
         if nontrivial(obs) and len(rep.samples) < 4:
+            if isinstance(item, dict) and "b" in item:
+                continue
             c = universe.case_ext(item["e"]) if isinstance(item, dict) and "e" in item else universe.case(item if isinstance(item, int) else item["i"])
             rep.sample({"item": item, "optimizer": obs["opt"], "task_kind": obs["kind"], "minmax": obs["minmax"],
                         "mode": obs["mode"], "config": c["cfg"], "vars": c["spec"]["vars"], "stats": obs["stats"]})
